@@ -576,7 +576,8 @@ pub fn replay(args: &Args) {
     let cases = read_ndjson(args.req("in"));
     let mut rep = Report::new(args.get("prop").unwrap_or("C02"), args.req("out"));
     let full = args.flag("full");
-    for v in &cases {
+    for v in cases {
+        let v = &v;
         if get_str(v, "op") != "window" {
             continue;
         }
@@ -691,7 +692,8 @@ pub fn kernel_safety(args: &Args) {
     use crate::kern::*;
     let cases = read_ndjson(args.req("in"));
     let mut rep = Report::new(args.get("prop").unwrap_or("C10"), args.req("out"));
-    for v in &cases {
+    for v in cases {
+        let v = &v;
         if get_str(v, "op") != "window" {
             continue;
         }
